@@ -1,0 +1,197 @@
+//go:build verif
+
+package rpc
+
+import (
+	"context"
+	"encoding/json"
+	"os"
+	"sync"
+	"sync/atomic"
+
+	"capnproto.org/go/capnp/v3"
+	rpccp "capnproto.org/go/capnp/v3/std/capnp/rpc"
+)
+
+// Wire tracing for trace validation (build tag verif): when the environment
+// variable CAPNP_VERIF_TRACE names a file, every Conn records each message it
+// receives and each message it is about to send, with a per-connection
+// sequence number, as one JSON object per line.  Read-only with respect to
+// the connection.
+
+var (
+	verifTraceOnce sync.Once
+	verifTraceFile *os.File
+	verifTraceMu   sync.Mutex
+	verifConnSeq   uint64
+)
+
+func verifWrapTransport(t Transport) Transport {
+	path := os.Getenv("CAPNP_VERIF_TRACE")
+	if path == "" {
+		return t
+	}
+	verifTraceOnce.Do(func() {
+		verifTraceFile, _ = os.OpenFile(path, os.O_APPEND|os.O_CREATE|os.O_WRONLY, 0o644)
+	})
+	if verifTraceFile == nil {
+		return t
+	}
+	return &verifTransport{Transport: t, conn: atomic.AddUint64(&verifConnSeq, 1), pid: os.Getpid()}
+}
+
+type verifTransport struct {
+	Transport
+	conn uint64
+	pid  int
+	mu   sync.Mutex
+	seq  int
+}
+
+func (vt *verifTransport) emit(dir string, m rpccp.Message) {
+	e := map[string]interface{}{"pid": vt.pid, "conn": vt.conn, "dir": dir, "m": "", "q": -1, "tgt": "", "on": -1, "e": -1, "n": 0,
+		"rel": false, "kind": "", "caps": []interface{}{}}
+	verifDescribe(e, m)
+	vt.mu.Lock()
+	vt.seq++
+	e["seq"] = vt.seq
+	b, _ := json.Marshal(e)
+	verifTraceMu.Lock()
+	verifTraceFile.Write(append(b, '\n'))
+	verifTraceMu.Unlock()
+	vt.mu.Unlock()
+}
+
+func (vt *verifTransport) note(what string) {
+	vt.mu.Lock()
+	vt.seq++
+	b, _ := json.Marshal(map[string]interface{}{"pid": vt.pid, "conn": vt.conn, "dir": "note", "m": what, "q": -1, "tgt": "", "on": -1, "e": -1, "n": 0,
+		"rel": false, "kind": "", "caps": []interface{}{}, "seq": vt.seq})
+	verifTraceMu.Lock()
+	verifTraceFile.Write(append(b, '\n'))
+	verifTraceMu.Unlock()
+	vt.mu.Unlock()
+}
+
+func (vt *verifTransport) NewMessage(ctx context.Context) (rpccp.Message, func() error, capnp.ReleaseFunc, error) {
+	m, send, release, err := vt.Transport.NewMessage(ctx)
+	if err != nil {
+		return m, send, release, err
+	}
+	return m, func() error {
+		// recorded before it can reach the peer, so that the peer's reaction is never recorded first
+		vt.emit("send", m)
+		err := send()
+		if err != nil {
+			vt.note("send-failed")
+		}
+		return err
+	}, release, nil
+}
+
+func (vt *verifTransport) RecvMessage(ctx context.Context) (rpccp.Message, capnp.ReleaseFunc, error) {
+	m, release, err := vt.Transport.RecvMessage(ctx)
+	if err == nil {
+		vt.emit("recv", m)
+	}
+	return m, release, err
+}
+
+func verifCaps(p rpccp.Payload) []interface{} {
+	out := []interface{}{}
+	if !p.IsValid() {
+		return out
+	}
+	tab, err := p.CapTable()
+	if err != nil {
+		return out
+	}
+	for i := 0; i < tab.Len(); i++ {
+		d := tab.At(i)
+		switch d.Which() {
+		case rpccp.CapDescriptor_Which_none:
+			out = append(out, []interface{}{"none", 0})
+		case rpccp.CapDescriptor_Which_senderHosted:
+			out = append(out, []interface{}{"senderHosted", int(d.SenderHosted())})
+		case rpccp.CapDescriptor_Which_senderPromise:
+			out = append(out, []interface{}{"senderPromise", int(d.SenderPromise())})
+		case rpccp.CapDescriptor_Which_receiverHosted:
+			out = append(out, []interface{}{"receiverHosted", int(d.ReceiverHosted())})
+		default:
+			out = append(out, []interface{}{"other", 0})
+		}
+	}
+	return out
+}
+
+func verifTarget(e map[string]interface{}, t rpccp.MessageTarget) {
+	switch t.Which() {
+	case rpccp.MessageTarget_Which_importedCap:
+		e["tgt"], e["e"] = "imp", int(t.ImportedCap())
+	case rpccp.MessageTarget_Which_promisedAnswer:
+		pa, _ := t.PromisedAnswer()
+		e["tgt"], e["on"] = "ans", int(pa.QuestionId())
+	default:
+		e["tgt"] = "other"
+	}
+}
+
+func verifDescribe(e map[string]interface{}, m rpccp.Message) {
+	switch m.Which() {
+	case rpccp.Message_Which_bootstrap:
+		b, _ := m.Bootstrap()
+		e["m"], e["q"] = "bootstrap", int(b.QuestionId())
+	case rpccp.Message_Which_call:
+		c, _ := m.Call()
+		e["m"], e["q"] = "call", int(c.QuestionId())
+		if t, err := c.Target(); err == nil {
+			verifTarget(e, t)
+		}
+		if p, err := c.Params(); err == nil {
+			e["caps"] = verifCaps(p)
+		}
+		if c.SendResultsTo().Which() != rpccp.Call_sendResultsTo_Which_caller {
+			e["kind"] = "results-elsewhere"
+		}
+	case rpccp.Message_Which_return:
+		r, _ := m.Return()
+		e["m"], e["q"], e["rel"] = "return", int(r.AnswerId()), r.ReleaseParamCaps()
+		switch r.Which() {
+		case rpccp.Return_Which_results:
+			e["kind"] = "results"
+			if p, err := r.Results(); err == nil {
+				e["caps"] = verifCaps(p)
+			}
+		case rpccp.Return_Which_exception:
+			e["kind"] = "exception"
+		default:
+			e["kind"] = "other"
+		}
+	case rpccp.Message_Which_finish:
+		f, _ := m.Finish()
+		e["m"], e["q"], e["rel"] = "finish", int(f.QuestionId()), f.ReleaseResultCaps()
+	case rpccp.Message_Which_release:
+		r, _ := m.Release()
+		e["m"], e["e"], e["n"] = "release", int(r.Id()), int(r.ReferenceCount())
+	case rpccp.Message_Which_disembargo:
+		d, _ := m.Disembargo()
+		e["m"] = "disembargo"
+		switch d.Context().Which() {
+		case rpccp.Disembargo_context_Which_senderLoopback:
+			e["kind"], e["n"] = "senderLoopback", int(d.Context().SenderLoopback())
+		case rpccp.Disembargo_context_Which_receiverLoopback:
+			e["kind"], e["n"] = "receiverLoopback", int(d.Context().ReceiverLoopback())
+		default:
+			e["kind"] = "other"
+		}
+		if t, err := d.Target(); err == nil {
+			verifTarget(e, t)
+		}
+	case rpccp.Message_Which_abort:
+		e["m"] = "abort"
+	case rpccp.Message_Which_unimplemented:
+		e["m"] = "unimplemented"
+	default:
+		e["m"] = "other"
+	}
+}
